@@ -1,0 +1,104 @@
+// Copyright 2015, Joe Tsai. All rights reserved.
+// Use of this source code is governed by a BSD-style
+// license that can be found in the LICENSE.md file.
+
+//go:build verif
+// +build verif
+
+package brotli
+
+// Add-only export shim for the verification harness (/verif): read-only
+// access to unexported tables and helpers. Not part of the normal build.
+
+// VerifRange is an exported copy of rangeCode.
+type VerifRange struct{ Base, Bits uint32 }
+
+// VerifTransform is an exported copy of one transformLUT entry.
+type VerifTransform struct {
+	Prefix string
+	Op     int // 0 identity, 1 uppercase-first, 2 uppercase-all, 3..11 omit-first 1..9, 12..20 omit-last 1..9
+	Suffix string
+}
+
+func verifRanges(rcs []rangeCode) []VerifRange {
+	out := make([]VerifRange, len(rcs))
+	for i, rc := range rcs {
+		out[i] = VerifRange{rc.base, rc.bits}
+	}
+	return out
+}
+
+// VerifDictLUT returns the static dictionary (RFC 7932 appendix A).
+func VerifDictLUT() []byte { return dictLUT }
+
+// VerifDictBitSizes returns NDBITS indexed by word length 0..24.
+func VerifDictBitSizes() []int { return dictBitSizes[:] }
+
+// VerifDictSizes returns NWORDS indexed by word length 0..24.
+func VerifDictSizes() []int { return dictSizes[:] }
+
+// VerifDictOffsets returns DOFFSET indexed by word length 0..24.
+func VerifDictOffsets() []int { return dictOffsets[:] }
+
+// VerifTransforms returns the 121 word transforms (RFC 7932 appendix B).
+func VerifTransforms() []VerifTransform {
+	out := make([]VerifTransform, len(transformLUT))
+	for i, t := range transformLUT {
+		out[i] = VerifTransform{t.prefix, t.transform, t.suffix}
+	}
+	return out
+}
+
+// VerifTransformWord applies transform id to word.
+func VerifTransformWord(word []byte, id int) []byte {
+	var buf [maxWordSize]byte
+	n := transformWord(buf[:], word, id)
+	return append([]byte(nil), buf[:n]...)
+}
+
+// VerifContextLUTs returns Lut0, Lut1, Lut2 of RFC 7932 section 7.1.
+func VerifContextLUTs() (lut0, lut1, lut2 []uint8) {
+	return contextLUT0[:], contextLUT1[:], contextLUT2[:]
+}
+
+// VerifLitContextID exposes getLitContextID.
+func VerifLitContextID(p1, p2 byte, mode uint8) uint8 { return getLitContextID(p1, p2, mode) }
+
+// VerifInsLenRanges etc. expose the range-code tables of RFC sections 5, 6, 7.3.
+func VerifInsLenRanges() []VerifRange { return verifRanges(insLenRanges) }
+func VerifCpyLenRanges() []VerifRange { return verifRanges(cpyLenRanges) }
+func VerifBlkLenRanges() []VerifRange { return verifRanges(blkLenRanges) }
+func VerifMaxRLERanges() []VerifRange { return verifRanges(maxRLERanges) }
+
+// VerifIaCLUT returns, per insert-and-copy symbol, the insert and copy ranges.
+func VerifIaCLUT() (ins, cpy []VerifRange) {
+	for _, r := range iacLUT {
+		ins = append(ins, VerifRange{r.ins.base, r.ins.bits})
+		cpy = append(cpy, VerifRange{r.cpy.base, r.cpy.bits})
+	}
+	return ins, cpy
+}
+
+// VerifComplexLens returns the code length code order of RFC section 3.5.
+func VerifComplexLens() []uint { return complexLens[:] }
+
+// VerifCodeCLens returns (symbol, length) of the fixed code for code-length code lengths.
+func VerifCodeCLens() [][2]uint32 {
+	var out [][2]uint32
+	for _, c := range codeCLens {
+		out = append(out, [2]uint32{c.sym, c.len})
+	}
+	return out
+}
+
+// VerifDistShortLUT returns (index, delta) for the 16 short distance codes.
+func VerifDistShortLUT() [][2]int {
+	var out [][2]int
+	for _, r := range distShortLUT {
+		out = append(out, [2]int{r.index, r.delta})
+	}
+	return out
+}
+
+// VerifDistLongLUT returns the long-distance table for one NPOSTFIX.
+func VerifDistLongLUT(npostfix int) []VerifRange { return verifRanges(distLongLUT[npostfix]) }
